@@ -83,11 +83,13 @@ Print Assumptions C03_witness_rejected.
 (* ---- multi-DDict hash set ---- *)
 Theorem C03_ddict_hashset_in_bounds : forall (h : N -> N) (l : list (N * N)),
   exists s, add_all h next_fixed l create = HOk s /\ hs_count s < hs_size s /\
-            List.length (hs_tab s) = N.to_nat (hs_size s).
+            List.length (hs_tab s) = N.to_nat (hs_size s) /\
+            forall id, exists r, get h next_fixed s id = HOk r.
 Proof. exact ddict_hashset_in_bounds. Qed.
 Print Assumptions C03_ddict_hashset_in_bounds.
 
 Theorem C03_ddict_hashset_finite_map : forall (h : N -> N) (l : list (N * N)) (s : hset) (id : N),
+  Forall (fun e => fst e <> 0) l ->
   add_all h next_fixed l create = HOk s -> get h next_fixed s id = HOk (spec_get l id None).
 Proof. exact ddict_hashset_finite_map. Qed.
 Print Assumptions C03_ddict_hashset_finite_map.
